@@ -717,7 +717,7 @@ def mpf_add(s, t, prec=0, rnd=round_fast, _sub=0):
             if offset > 0:
                 # Outside precision range; only need to perturb
                 if offset > 100 and prec:
-                    delta = sbc + sexp - tbc - texp
+                    delta = min(sbc, prec) + sexp - tbc - texp
                     if delta > prec + 4:
                         offset = prec + 4
                         sman <<= offset
@@ -742,7 +742,7 @@ def mpf_add(s, t, prec=0, rnd=round_fast, _sub=0):
             elif offset < 0:
                 # Outside precision range; only need to perturb
                 if offset < -100 and prec:
-                    delta = tbc + texp - sbc - sexp
+                    delta = min(tbc, prec) + texp - sbc - sexp
                     if delta > prec + 4:
                         offset = prec + 4
                         tman <<= offset
